@@ -42,6 +42,23 @@ func (g *G) loadNear(r string, v *big.Int, neg bool) {
 // Conv generates the C14 programs.
 func Conv(g *G, n int) []Program {
 	var out []Program
+	// NewDecimal(x, e) right at the edge of the representable range: x with d digits is representable iff
+	// MinExp <= e + d <= MaxExp; one step inside, on and outside each limit, for several digit counts and both signs
+	for _, xs := range []string{"7", "1234567890", "999999999999999999", "1000000000000000000", "9223372036854775807", "-9223372036854775808", "-5"} {
+		d := int64(len(xs))
+		if xs[0] == '-' {
+			d--
+		}
+		for _, off := range []int64{-2, -1, 0, 1} {
+			for _, e := range []int64{-2147483648 - d + off, 2147483647 - d + off} {
+				g.Emit(M{"op": "NewDecimal", "z": "r2", "i": xs, "e": itoa(e)})
+				if e > 2147483647 || e < -2147483648 {
+					g.Emit(M{"op": "New", "z": "r2"})
+				}
+			}
+		}
+	}
+	out = append(out, g.Flush("conv"))
 	two63 := new(big.Int).Lsh(big.NewInt(1), 63)
 	two64 := new(big.Int).Lsh(big.NewInt(1), 64)
 	ten19 := new(big.Int).Exp(big.NewInt(10), big.NewInt(19), nil)
@@ -112,7 +129,13 @@ func Conv(g *G, n int) []Program {
 			default:
 				v := edgeInts[g.R.Intn(len(edgeInts))]
 				e := int64(g.R.Intn(81) - 40)
-				switch g.R.Intn(6) {
+				switch g.R.Intn(7) {
+				case 3: // just outside the exponent range: the digit count of x decides whether x * 10^e is still representable
+					if g.Bool() {
+						e = -2147483648 - int64(g.R.Intn(40))
+					} else {
+						e = 2147483647 - int64(g.R.Intn(25)) + 2
+					}
 				case 0, 1:
 					e = g.ExtremeExp()
 				case 2: // any int is a legal exponent argument: the ends of int64, where exponent + digit count wraps
